@@ -97,7 +97,7 @@ func WireType(t *TypeRef) byte {
 type ValOpts struct {
 	MaxDepth int
 	MaxLen   int
-	NaN      bool // allow NaN outside set elements / map keys
+	NaN      bool          // allow NaN outside set elements / map keys
 	Marker   func() string // when set, strings and binaries are unique markers
 }
 
